@@ -456,8 +456,11 @@ CallFPoll(a0, e) ==
   THEN [CallLEnter(a, [t |-> e.t, l |-> e.g]) EXCEPT !.ad[e.f].g = e.g, !.ad[e.f].open = TRUE]
   ELSE IF d.done THEN a
   ELSE [CallSetLp(a, [t |-> e.t, g |-> e.g, h |-> d.h]) EXCEPT !.ad[e.f].g = e.g, !.ad[e.f].open = TRUE]
-CallPollEnd(a, e) ==
-  LET d == a.ad[e.f] IN
+\* a span the scripted inner future holds is finished when the inner completes or is dropped, which is
+\* before the adapter's own span finishes
+HeldDrop(a, e) == IF Has(e, "held") THEN CallDrop(a, [t |-> e.t, h |-> e.held]) ELSE a
+CallPollEnd(a0, e) ==
+  LET a == HeldDrop(a0, e) d == a.ad[e.f] IN
   IF ~d.open THEN a
   ELSE IF d.kind = "eop" THEN [CallLExit(a, [t |-> e.t, l |-> d.g]) EXCEPT !.ad[e.f].open = FALSE]
   ELSE LET a1 == [CallDropGuard(a, [t |-> e.t, g |-> d.g]) EXCEPT !.ad[e.f].open = FALSE]
@@ -468,8 +471,12 @@ CallPollEnd(a, e) ==
 RetFPoll(a, e) ==
   LET d == a.ad[e.f] IN
   IF d.done /\ d.finby = e.t /\ d.h # None /\ Has(a.rt, d.h) THEN [a EXCEPT !.rt[d.h].ret = TRUE] ELSE a
-CallFDrop(a, e) ==
-  LET d == a.ad[e.f] IN
+CallFDrop(a0, e) ==
+  LET a1 == HeldDrop(a0, e)
+      \* ... and its record counts as finished before the span
+      mine == {x \in a1.exp : x.by = e.t /\ ~x.due}
+      a == [a1 EXCEPT !.exp = (@ \ mine) \cup {[x EXCEPT !.due = TRUE] : x \in mine}]
+      d == a.ad[e.f] IN
   IF d.kind = "eop" \/ d.done THEN a ELSE [CallDrop(a, [t |-> e.t, h |-> d.h]) EXCEPT !.ad[e.f].done = TRUE, !.ad[e.f].finby = e.t]
 RetFDrop(a, e) ==
   LET d == a.ad[e.f] IN
